@@ -1,7 +1,7 @@
 (* Extraction of the executable model and spec-side deciders (ExtrOcamlBasic only). *)
 From Coq Require Import NArith List Extraction ExtrOcamlBasic.
-From SdSd Require Import Poly CrcModel SdModel SdSpec.
+From SdSd Require Import Poly CrcModel SdModel SdSpec SdBound.
 Extraction Language OCaml.
 Extraction "../../build/extract/sd/sdx.ml" api init_st oracle_spi crc16 crc7 frame
   v1_capacity_blocks v1_capacity_bytes v2_capacity_blocks v2_capacity_bytes
-  card_spi power_on accept_code accept spec_capacity_blocks spec_capacity_bytes csd_matches.
+  call_bytes tbytes bound card_spi power_on accept_code accept spec_capacity_blocks spec_capacity_bytes csd_matches.
